@@ -12,6 +12,14 @@ variable {A : Type} [DecidableEq A]
 /-! ### textinput.Model -/
 
 open VaxisModel.Lemmas.EdLangTIBody in
+/-- `isAlphaNumeric` as translated from the source: a character is a word constituent iff it is ONE code point and that
+    code point is a letter or a number (`unicode.IsLetter` / `IsNumber` as parameters) — every grapheme of several code
+    points (decomposed é, flags, ZWJ emoji, Hangul L+V) is a separator. -/
+theorem ti_isAlphaNumeric_body_eq_model (isLetter isNumber : A → Bool) (c : List A) (hc : c ≠ []) :
+    tiIsAlnumI genTi isLetter isNumber c = some (match c with | [a] => isLetter a || isNumber a | _ => false) :=
+  isAlphaNumeric_body_eq_model isLetter isNumber c hc
+
+open VaxisModel.Lemmas.EdLangTIBody in
 /-- `SetContent` -/
 theorem ti_setContent_body_eq_model (cl : List A → List (List A)) (al : List A → Bool) (m : TextInputCl.TIC A) (s : List A) :
     tiRunSetContent genTi cl al m s = some (TextInputCl.setContent cl m s) :=
